@@ -88,6 +88,12 @@ struct VRep19 {
     body = HDR + '\n'.join('VF_STATIC_FACT((std::is_convertible<au::Zero, %s>::value));' % t for t in ts) + '''
 VF_STATIC_FACT((std::is_convertible<au::Zero, std::chrono::nanoseconds>::value));
 VF_STATIC_FACT((std::is_convertible<au::Zero, std::chrono::duration<double, std::ratio<3, 7>>>::value));
+struct VTicks { constexpr VTicks() : v(0) {} constexpr VTicks(long long x) : v(x) {} long long v; };   /* a class type used as a chrono rep */
+constexpr bool operator==(VTicks a, VTicks b) { return a.v == b.v; }
+VF_STATIC_FACT((std::is_convertible<au::Zero, std::chrono::duration<VTicks, std::milli>>::value));
+VF_STATIC_FACT((std::is_convertible<au::Zero, std::chrono::duration<unsigned char, std::ratio<3600>>>::value));
+constexpr std::chrono::duration<VTicks, std::milli> vf_dt = au::ZERO; VF_STATIC_FACT(vf_dt.count() == VTicks(0));
+constexpr std::chrono::duration<long long, std::pico> vf_dp = au::ZERO; VF_STATIC_FACT(vf_dp.count() == 0);
 VF_STATIC_FACT((std::is_convertible<au::Zero, au::Quantity<au::Meters, float>>::value));
 VF_STATIC_FACT((!std::is_convertible<au::Zero, au::QuantityPoint<au::Meters, int>>::value));
 VF_STATIC_FACT((!std::is_constructible<au::QuantityPoint<au::Meters, double>, au::Zero>::value));
@@ -96,6 +102,6 @@ constexpr long double vf_ld = au::ZERO; VF_STATIC_FACT(vf_ld == 0.0L);
 int main() {}
 '''
     obs.append(Ob(id='C19.static.zero-converts-to-every-arithmetic-type', prop='C19', group='C19.static', prelude='', wrappers=[], inputs=[], body=body, kind='S',
-                  contract='static facts: Zero is convertible to each of %d arithmetic types (bool and the character types included) and to chrono durations, with value 0; '
+                  contract='static facts: Zero is convertible to each of %d arithmetic types (bool and the character types included) and to chrono durations (built-in and class-type reps, any period), with value 0; '
                            'it is neither convertible to nor constructible into a QuantityPoint' % len(ts), functions_under_contract=('au::Zero::operator T (compile-time)',)))
     return obs
